@@ -1,6 +1,6 @@
 # Per-property claims; exec'd by gen_manifest.py (claim(id, technique, text, note, design_ref)).
 PENDING = "check not built yet in this framework (DESIGN.md §8 build order); no verdict is claimed until its rule set runs clean both ways"
-for _p in ["C01","C02","C03","C04","C05","C06","C07","C08","C11","C12","C14","C15","C16","C17","C18","C19","C20"]:
+for _p in ["C01","C02","C03","C04","C05","C06","C07","C08","C11","C14","C15","C16","C17","C18","C19","C20"]:
     NOT_APPLICABLE[_p] = PENDING
 
 claim("C10",
@@ -20,3 +20,9 @@ claim("C13",
   "Shows that the base32/base64 packages add nothing to Go's standard RFC 4648 encoders except the I2P alphabets and the Safe length guards: encoding globals are NewEncoding(I2P alphabet)[.WithPadding(NoPadding)] and are never stored to again anywhere in the program; each exported function is guards + one pass-through call of the matching Encoding method; Safe guards reject exactly len==0 and len>MAX; MAX_DECODE_SIZE = EncodedLen(MAX_ENCODE_SIZE). Round trip and strict-alphabet behaviour for all inputs then follow from the standard library, which a sampled test cannot establish for this wrapper either way.",
   "Trusted: correctness of encoding/base32 and encoding/base64 (round trip, foreign characters rejected, CR/LF skipped, padding validated). Function roles (NoPadding/Safe) are taken from the exported function names.",
   "DESIGN.md §5 C13")
+
+claim("C12",
+  "guard-region extraction (interval partitioning over SSA paths) per constructor/decoder, constant checks, byte-order use scan with canary, range-at-conversion analysis",
+  "Decides the domain half of the primitives for all inputs: which (value,width) pairs, input lengths and millisecond values each constructor/decoder rejects is extracted statically and compared with the specified domain — widths 1..8; for each width n exactly [0,2^(8n)-1]; 1..8 input bytes for decoders; strings up to 255 bytes; every fixed-size reader rejects exactly len<size — plus: only big-endian primitives are used anywhere in the library, narrowing conversions in the primitive files are reached only with fitting values, and the unsigned accessor does not detour through a signed type. The boundaries (2^(8n), 255/256, size 0/9) are decided exactly rather than sampled. Value-level decode(encode(x)) = x is not decided.",
+  "Trusted: go/ssa, encoding/binary.BigEndian. Assumes 64-bit int. Exported API names (NewIntegerFromInt, EncodeIntN, DecodeIntN, …) are anchors; fixed-size readers are discovered by signature.",
+  "DESIGN.md §5 C12")
